@@ -4,7 +4,7 @@ import LMV.Driver.Util
 namespace LMV.Driver.C05
 open LMV LMV.Encode LMV.Driver
 
-def ops : List String := ["enc"]
+def ops : List String := ["enc", "c05chr"]
 
 def alphabetOf (s : String) : Alphabet := if s == "dna" then dna else protein
 
@@ -22,6 +22,10 @@ def runModel (A : Alphabet) (backend : String) (s : List UInt8) : Except UInt8 (
 
 def handle (toks : List String) : String :=
   match toks with
+  | "c05chr" :: alpha :: cp :: _ =>
+    match (alphabetOf alpha).fromChar (parseNat! cp) with
+    | some a => s!"ok {a}"
+    | none => "err"
   | "enc" :: alpha :: backend :: _api :: n :: rest =>
     let A := alphabetOf alpha
     let s := (rest.take (parseNat! n)).map (fun t => (parseNat! t).toUInt8)
